@@ -12,7 +12,7 @@
     [inc_end m g n] / [hh_end g n] = n lies on an included / on an H-H bond, [charge_changed a] = the two charges in typesGH differ.
     Theorems 13-17: the RadiusExpand helpers. *)
 From Coq Require Import List NArith ZArith Bool.
-From SK Require Import lib.LGraph lib.C01_GraphLemmas model.C01_Model model.C02_Model proof.C02_Proof proof.C02_Opts proof.C02_OptsEquiv proof.C02_Ctx proof.C02_Lre.
+From SK Require Import lib.LGraph lib.C01_GraphLemmas model.C01_Model model.C02_Model proof.C02_Proof proof.C02_Opts proof.C02_OptsEquiv proof.C02_Ctx proof.C02_Lre proof.C02_Sides.
 Import ListNotations.
 Local Open Scope Z_scope.
 
@@ -63,7 +63,7 @@ Print Assumptions C02_ctx_chain.
 
 (** 1'. ITSGraph(ignore_aromaticity=True) computes standard_order with |difference| < 1 zeroed ([ia_consistent], half-units: < 2);
         on such ITS graphs a bond is in the centre iff its orders differ by at least 1, or both atoms are hydrogens *)
-Theorem C02_ia_construct : forall bal G H, ia_consistent (its_construct_o true bal G H).
+Theorem C02_ia_construct : forall bal G H, ia_consistent (its_construct_ab true bal G H).
 Proof. exact its_construct_ia_consistent. Qed.
 Print Assumptions C02_ia_construct.
 
@@ -192,7 +192,7 @@ Proof. exact context_list_spec. Qed.
 Print Assumptions C02_context_list.
 
 (** 17. the ITSGraph variant used by the correspondence is C01's construction for the default options *)
-Theorem C02_construct_default : forall G H, its_construct_o false false G H = its_construct G H.
+Theorem C02_construct_default : forall G H, its_construct_ab false false G H = its_construct G H.
 Proof. exact its_construct_o_default. Qed.
 Print Assumptions C02_construct_default.
 
@@ -232,3 +232,19 @@ Theorem C02_lre_path : forall (g : its) (rcn : list N),
   exists n ext, In n rcn /\ lre g rcn = n :: ext /\ zchain g n ext /\ NoDup (n :: ext).
 Proof. exact lre_path. Qed.
 Print Assumptions C02_lre_path.
+
+(** 20. the property as stated on the two sides of the reaction.  For the ITS that ITSGraph builds from a reactant graph G and
+        a product graph H (base choice as for balance_its=False, or any balance_its when both graphs have equally many atoms),
+        two atoms are joined in the centre iff they are bonded on some side and the order differs between the sides
+        (absent = 0; with ignore_aromaticity: differs by at least 1 = 2 half-units), or both atoms are hydrogens.
+        ([its_construct_ab ia bal] is C01's its_construct for ia = bal = false: theorem 17.) *)
+Theorem C02_centre_vs_sides : forall ia bal (G H : mgraph), wf G -> wf H ->
+  (bal = false \/ length (gnodes G) = length (gnodes H)) ->
+  let I := its_construct_ab ia bal G H in
+  forall u v,
+    (exists e, adj (get_rc I) u v = Some e) <->
+    (adj G u v <> None \/ adj H u v <> None) /\
+    ((if ia then 2 <= Z.abs (order_in G u v - order_in H u v) else order_in G u v <> order_in H u v) \/
+     (is_h I u = true /\ is_h I v = true)).
+Proof. exact centre_vs_sides. Qed.
+Print Assumptions C02_centre_vs_sides.
